@@ -266,6 +266,60 @@ func dupKeys(e sx.Sexp) bool {
 	return false
 }
 
+// treeShape: a non-empty array of [path, int] with non-empty paths of strings — the inputs of `tree` this harness models
+func treeShape(e sx.Sexp) bool {
+	if e.Tag() != "a" || len(e.Args()) == 0 {
+		return false
+	}
+	for _, it := range e.Args() {
+		if it.Tag() != "a" || len(it.Args()) != 2 {
+			return false
+		}
+		path, v := it.Args()[0], it.Args()[1]
+		if path.Tag() != "a" || len(path.Args()) == 0 || v.Tag() != "i" {
+			return false
+		}
+		for _, k := range path.Args() {
+			if k.Tag() != "s" {
+				return false
+			}
+		}
+	}
+	return true
+}
+
+// mutableInside: a MutableHashValue strictly inside a value (a builder that leaked into an immutable value)
+func mutableInside(v px.Value, top bool, depth int) bool {
+	if depth > 40 {
+		return false
+	}
+	found := false
+	switch v := v.(type) {
+	case *types.MutableHashValue:
+		if !top {
+			return true
+		}
+		v.EachPair(func(k, e px.Value) { found = found || mutableInside(k, false, depth+1) || mutableInside(e, false, depth+1) })
+	case *types.Hash:
+		v.EachPair(func(k, e px.Value) { found = found || mutableInside(k, false, depth+1) || mutableInside(e, false, depth+1) })
+	case *types.Array:
+		v.Each(func(e px.Value) { found = found || mutableInside(e, false, depth+1) })
+	case *types.HashEntry:
+		return mutableInside(v.Key(), false, depth+1) || mutableInside(v.Value(), false, depth+1)
+	}
+	return found
+}
+
+// staleType: the inferred type of a mutable hash after Put/PutAll must be the inferred type of an equal, freshly
+// built hash ("inferring its type" is one of the property's operations; the snapshot has asked for the type before)
+func staleType(m *types.MutableHashValue) (string, bool) {
+	es := make([]*types.HashEntry, 0, m.Len())
+	m.EachPair(func(k, v px.Value) { es = append(es, types.WrapHashEntry(k, v)) })
+	want := types.WrapHash(es).PType().String()
+	got := m.PType().String()
+	return "inferred type " + got + ", an equal fresh hash has " + want, got != want
+}
+
 // ---- functions passed to Map / Select / Sort ---------------------------------------------------------------------
 
 func mapper(name string) px.Mapper {
@@ -444,6 +498,11 @@ func (h *hist) step(c px.Context, st sx.Sexp) (res *entry, recv int, args []int)
 		}), recv, nil
 	case "mnew":
 		return call(func() { out = types.NewMutableHash() }), recv, nil
+	case "tree":
+		if !treeShape(a[0]) {
+			return marker("~"), recv, nil
+		}
+		return call(func() { out = px.New(c, types.DefaultHashType(), valOf(a[0]), types.WrapString(`tree`)) }), recv, nil
 	}
 	if len(a) == 0 {
 		panic(fmt.Errorf("bad step %s", st))
@@ -546,6 +605,24 @@ func (h *hist) step(c px.Context, st sx.Sexp) (res *entry, recv int, args []int)
 			return mk(x), recv, nil
 		}
 		return marker("~"), recv, nil
+	case "get":
+		if !isHash {
+			return marker("~"), recv, nil
+		}
+		k, ka, ok := h.elem(a[1])
+		if !ok {
+			return marker("~"), recv, nil
+		}
+		args = ka
+		var x px.Value
+		if err := safely(func() { x, _ = r.hash().Get(k) }); err != nil {
+			return marker("!"), recv, args
+		}
+		switch x.(type) {
+		case *types.Array, *types.Hash, *types.MutableHashValue:
+			return mk(x), recv, args
+		}
+		return marker("~"), recv, args
 	case "map", "mapvalues":
 		f := mapper(a[1].Atom)
 		if f == nil {
@@ -706,13 +783,13 @@ func wellFormed(st sx.Sexp) bool {
 	isFn := func(s sx.Sexp) bool { return !s.IsList && mapper(s.Atom) != nil }
 	isPred := func(s sx.Sexp) bool { return !s.IsList && predicate(s.Atom) != nil }
 	switch st.Tag() {
-	case "lit", "parse":
+	case "lit", "parse", "tree":
 		return shape(isVal)
 	case "coll":
 		return shape(isInt, isVal)
 	case "mnew":
 		return shape()
-	case "add", "delete":
+	case "add", "delete", "get":
 		return shape(isInt, isElem)
 	case "addall", "deleteall", "merge", "mputall", "equals":
 		return shape(isInt, isInt)
@@ -841,11 +918,22 @@ func exec(c px.Context, op string, steps []sx.Sexp) core.Result {
 			}
 			e.snap = snapshot(e.v)
 		}
+		if e.v != nil && fail == "" {
+			if mutableInside(e.v, true, 0) {
+				failClass = "mutable-inside." + st.Tag()
+				fail = fmt.Sprintf("step %d %s answered a value that holds a MutableHashValue (a builder that can still be changed): %s", n, st.String(), e.cont)
+			} else if m, ok := e.v.(*types.MutableHashValue); ok && (st.Tag() == "mput" || st.Tag() == "mputall") {
+				if msg, stale := staleType(m); stale {
+					failClass = "stale-type." + st.Tag()
+					fail = fmt.Sprintf("step %d %s: %s", n, st.String(), msg)
+				}
+			}
+		}
 		h.uses = append(h.uses, 0)
 		for _, u := range append([]int{recv}, args...) {
 			if u >= 0 && u < n {
 				h.uses[u]++
-				if s := steps[u].Tag(); s != "lit" && s != "parse" && s != "coll" && s != "mnew" {
+				if s := steps[u].Tag(); s != "lit" && s != "parse" && s != "coll" && s != "mnew" && s != "tree" {
 					derived = true
 				}
 			}
@@ -893,7 +981,7 @@ func exec(c px.Context, op string, steps []sx.Sexp) core.Result {
 		}
 	}
 	// storage shape; `at` hands out a nested container whose identity the (one-level) model does not track
-	if h.tags["at"] {
+	if h.tags["at"] || h.tags["get"] || h.tags["tree"] {
 		b.WriteString(" | shape n/a")
 	} else {
 		b.WriteString(" | shape " + h.shape())
@@ -1053,8 +1141,26 @@ func randCtor(r *rand.Rand) sx.Sexp {
 	return st("coll", n(r.Intn(3)), v)
 }
 
+func randTree(r *rand.Rand) sx.Sexp {
+	var items []sx.Sexp
+	for i := 0; i < 1+r.Intn(4); i++ {
+		var path []sx.Sexp
+		for j := 0; j < 1+r.Intn(3); j++ {
+			path = append(path, sv(strs[r.Intn(2)]))
+		}
+		items = append(items, av(av(path...), iv(int64(r.Intn(4)))))
+	}
+	return st("tree", av(items...))
+}
+
 func randHistory(r *rand.Rand, length int) []sx.Sexp {
 	steps := []sx.Sexp{randCtor(r), randCtor(r)}
+	if r.Intn(5) == 0 {
+		// a hash built by the tree constructor, its nested hashes taken out and operated on
+		t := len(steps)
+		steps = append(steps, randTree(r), st("get", n(t), sv("a")), st("get", n(t+1), sv("a")),
+			st("mput", n(t+1), sv("z"), iv(9)), st("add", n(t+1), sx.T("e", sv("y"), iv(8))), st("delete", n(t+1), sv("a")))
+	}
 	if r.Intn(3) == 0 {
 		// a mutable hash that is filled, sliced and merged while it keeps changing
 		m := len(steps)
@@ -1128,7 +1234,11 @@ func randHistory(r *rand.Rand, length int) []sx.Sexp {
 				s = st("mput", rr, randVal(r, 0), randElem(r, size))
 			}
 		case k < 36:
-			s = st("at", rr, n(r.Intn(3)))
+			if r.Intn(2) == 0 {
+				s = st("get", rr, randVal(r, 0))
+			} else {
+				s = st("at", rr, n(r.Intn(3)))
+			}
 		case k < 37:
 			s = randCtor(r)
 		default:
